@@ -41,8 +41,8 @@ func firstCrossing(edges [][2]ref.PX) (a, b [2]ref.PX, found bool) {
 
 // nontrivial: routing inserted a vertex or some centre is visited twice (deepest id of the set)
 func nontrivialInput(sc *Scope, units [][]ref.P, z int) bool {
-	if sc.G.Real {
-		return true // real-grid blocks: every input counts (the reference router is not evaluated in 1e-10 units)
+	if sc.G.Real && sc.G.ResDeepest > 1<<30 {
+		return true // coarse real-grid blocks: every input counts (the int64 reference router would overflow)
 	}
 	m := model(sc.G, units, z)
 	if m.MaxV >= 2 {
@@ -111,6 +111,12 @@ func scopesValid(thorough bool) []Scope {
 		{Name: "L-holes-2", GS: synthGS(0, 2, [2]int64{7, 7}), Spec: lat.Spec{Points: lat.Window(2, 2, 2), MaxK: 4, Valid: true, MaxHoles: k(1, 2), HoleMaxK: k(3, 4)}, IDSets: one, Cfgs: keepCfgs},
 		{Name: "L-multi", GS: synthGS(2, 2, [2]int64{28, 28}), Spec: lat.Spec{Points: scale(lat.Window(2, 2, 2), 4), MaxK: k(4, 5), Valid: true}, IDSets: subsetsOf([]int{0, 1, 2}), Cfgs: keepCfgs},
 	}
+	// blocks of the real grids the property names (fine levels: pixel sizes small enough for int64 reference arithmetic)
+	scs = append(scs,
+		Scope{Name: "R-half-2:NetherlandsRDNewQuad-z14", GS: realGS("NetherlandsRDNewQuad", 14, 2, 155000, 463000), Spec: lat.Spec{Points: lat.Window(2, 2, 2), MaxK: k(3, 5), Valid: true}, IDSets: [][]int{{14}}, Cfgs: keepCfgs},
+		Scope{Name: "R-half-2:WebMercatorQuad-z17", GS: realGS("WebMercatorQuad", 17, 2, 550000.1, 6800000.2), Spec: lat.Spec{Points: lat.Window(2, 2, 2), MaxK: k(3, 5), Valid: true}, IDSets: [][]int{{17}}, Cfgs: keepCfgs},
+		Scope{Name: "R-multi:NetherlandsRDNewQuad-z12-14", GS: realGS("NetherlandsRDNewQuad", 14, 2, 20000.3, 380000.7), Spec: lat.Spec{Points: scale(lat.Window(2, 2, 2), 4), MaxK: k(3, 4), Valid: true}, IDSets: [][]int{{12, 13, 14}, {14}, {12, 14}}, Cfgs: keepCfgs},
+	)
 	if thorough {
 		scs = append(scs,
 			Scope{Name: "L-holes-3", GS: synthGS(0, 2, [2]int64{6, 6}), Spec: lat.Spec{Points: lat.Window(3, 3, 2), MaxK: 4, Valid: true, MaxHoles: 1, HoleMaxK: 3}, IDSets: one, Cfgs: keepCfgs},
